@@ -778,3 +778,86 @@ INTERP_MPI = Stream('cli_interp_mpi', cli_harness, None, gen_interp, oracle=orac
 
 DISTANCE_MPI = Stream('cli_distance_mpi', cli_harness, None, gen_distance, oracle=oracle_distance, kind='oracle',
                       np=[2, 3], nontrivial=lambda op, out: out.startswith('rc=0'), timeout=900)
+
+
+# ------------------------------------------------------------------ field files through the CLI on np ranks (C09)
+def metric_tagged(dim):
+    """SPD (diagonally dominant), all six components distinct and position dependent: a component-order or
+    vertex-order mistake anywhere between the file reader, ref_node and the file writer changes the output"""
+    def f(p):
+        x, y, z = p[0], p[1], p[2]
+        if dim == 2:
+            return (10.0 + x, 0.5 + 0.25 * y, 0.0, 20.0 + y, 0.0, 1.0)
+        return (10.0 + x, 0.5 + 0.25 * y, 0.75 + 0.125 * z, 20.0 + y, 1.0 + 0.25 * x, 30.0 + z)
+    return f
+
+
+def sc_fieldrt(ctx, d, case):
+    """`adapt -s 0 --export-metric-as`: the metric file read (ref_part_metric on np ranks / serial reader) and
+    written back (ref_gather_metric) without any adaptation in between"""
+    dim, v, cells, mesh = make_mesh(d, case)
+    f = metric_tagged(dim)
+    vals = [meshgen.solb_metric_row(f(tuple(p) + (0.0,) * (3 - len(p))), dim) for p in v]
+    met = os.path.join(case, 'in-metric.solb')
+    pyio.write_solb(met, dim, vals, [3], version=int(d.get('sv', '2')))
+    np = int(d.get('np', '0'))
+    rc, tail = run_ref(ctx, np, ['adapt', mesh, '--metric', met, '-x', os.path.join(case, 'out.meshb'), '-s', '0',
+                                 '--export-metric-as', os.path.join(case, 'out-metric.solb')], case, env_extra=knobs(d))
+    return 'rc=%d dir=%s' % (rc, case)
+
+
+def oracle_fieldrt(ops, impl):
+    bad = []
+    for i, (op, line) in enumerate(zip(ops, impl)):
+        d = kv(op)
+        o = parse_out(line)
+        if o.get('rc') != '0':
+            bad.append((i, 'C09 adapt -s 0 exited with status %s (np=%s)' % (o.get('rc'), d.get('np', '0'))))
+            continue
+        dim = int(d.get('dim', '3'))
+        try:
+            mi = pyio.read_meshb(os.path.join(o['dir'], 'in.meshb'))
+            mo = pyio.read_meshb(os.path.join(o['dir'], 'out.meshb'))
+            si = pyio.read_solb(os.path.join(o['dir'], 'in-metric.solb'))
+            so = pyio.read_solb(os.path.join(o['dir'], 'out-metric.solb'))
+        except Exception as ex:
+            bad.append((i, 'C09 output unreadable by the independent parser: %r' % (ex,)))
+            continue
+        if len(so['values']) != len(mo['verts']) or len(mo['verts']) != len(mi['verts']):
+            bad.append((i, 'C09 %d metric entries, %d output vertices, %d input vertices' %
+                        (len(so['values']), len(mo['verts']), len(mi['verts']))))
+            continue
+        pos = {tuple(p): k for k, p in enumerate(mi['verts'])}
+        for j, p in enumerate(mo['verts']):
+            k = pos.get(tuple(p))
+            if k is None:
+                bad.append((i, 'C09 zero-pass adapt moved vertex %d' % j))
+                break
+            if si['values'][k] != so['values'][j]:
+                bad.append((i, 'C09 metric entry %d of the output file is %s but vertex %d of the output mesh is input '
+                               'vertex %d whose tensor is %s (np=%s)' % (j, so['values'][j], j, k, si['values'][k],
+                                                                       d.get('np', '0'))))
+                break
+    return bad
+
+
+def gen_fieldrt(rng, tier, np=None):
+    ops = []
+    for _ in range(4 if tier == 'quick' else 16):
+        dim = rng.choice([2, 2, 3])
+        n = [rng.randint(2, 6) for _ in range(dim)]
+        op = 'fieldrt dim=%d n=%s jitter=%.2f mseed=%d' % (dim, ','.join(map(str, n)), rng.choice([0, 0.3]),
+                                                            rng.randint(1, 10 ** 6))
+        if np:
+            op += ' np=%d full=1' % np
+            if rng.random() < 0.5:
+                op += ' chunk=%d' % rng.choice([64, 200, 1000])
+        ops.append(op)
+    return ops
+
+
+SCENARIOS.update({'fieldrt': sc_fieldrt})
+FIELDRT = Stream('cli_metric_roundtrip', cli_harness, None, gen_fieldrt, oracle=oracle_fieldrt, kind='oracle',
+                 nontrivial=lambda op, out: out.startswith('rc=0'), timeout=900)
+FIELDRT_MPI = Stream('cli_metric_roundtrip_mpi', cli_harness, None, gen_fieldrt, oracle=oracle_fieldrt, kind='oracle',
+                     np=[2, 3, 5], nontrivial=lambda op, out: out.startswith('rc=0'), timeout=900)
